@@ -640,3 +640,4 @@ package ast
 //@   ensures result != nil
 //@ func (byteArrayWrapper).toBytes
 //@   pure
+//@ typeinv TreeSet: self.tree != nil
